@@ -356,12 +356,22 @@ def configs(tier, rng):
         picked.append(c)
     space = picked + rank4_space(rng, 30)
   else:
-    space = space + rank4_space(rng, 400)
+    # the whole space inside the bounds has ~330000 cases (about 15 h on 16 cores): the thorough tier
+    # takes a VERIF_SEED-seeded stratified sample about ten times the quick one
+    picked = [dict(c) for c in CORNERS]
+    rng.shuffle(space)
+    seen = collections_counter()
+    for c in space:
+      key = (tuple(c['sizes']), len(c['ew']), len(c['tz']), tuple(c['monos']))
+      if seen[key] < 2:
+        seen[key] += 1
+        picked.append(c)
+    space = picked[:800] + rank4_space(rng, 100)
   jobs = []
   bkinds = ['none', 'min', 'max', 'both']
   for i, base in enumerate(space):
     for units in ((1, 2) if tier == 'thorough' else (1 + (i % 2),)):
-      for bounds in (bkinds if tier == 'thorough' else [bkinds[(i // 2) % 4], 'both']):
+      for bounds in ([bkinds[i % 4], bkinds[(i + 2) % 4]] if tier == 'thorough' else [bkinds[(i // 2) % 4], 'both']):
         cfg = dict(base, units=units, bounds=bounds)
         if any(cfg['monos']):
           jobs.append(('apm', dict(sizes=cfg['sizes'], monos=cfg['monos'], units=units)))
@@ -405,9 +415,9 @@ EVIDENCE = {
     'rule': ('one obligation = (function under contract, discrete configuration, contract clause, '
              'tensor element / unit); non-trivial = needed a solver call (not closed by the '
              'normal-form simplifier); distinct by (function, configuration, clause, path)'),
-    'bounds': 'rank <= 3 exhaustively over trust sets plus sampled rank-4 lattices (trusts on disjoint feature pairs), sizes <= 3 (quick) / one size-4 dimension (thorough), units <= 2, '
+    'bounds': 'rank <= 3: stratified seeded sample of the trust-set space (quick ~1400 cases, thorough ~16000 of ~330000) plus sampled rank-4 lattices (trusts on disjoint feature pairs), sizes <= 3 (quick) / one size-4 dimension (thorough), units <= 2, '
               '<= 2 Edgeworth and <= 2 trapezoid trusts, bounds in {none,min,max,both} symbolic',
-    'exhaustive_tiers': {'quick': False, 'thorough': True},
+    'exhaustive_tiers': {'quick': False, 'thorough': False},
     'trusted_base': [
         'vt operator contracts for the tf.* operators used (vt/tfc.py), differentially tested '
         'against TensorFlow on every run by the cross-check',
